@@ -160,7 +160,7 @@ func faultInSack(r *proto.RTResult) bool {
 	return false
 }
 
-var F = &proto.RTFamily{ID: "C20", Gen: gen}
+var F = &proto.RTFamily{ID: "C20", Gen: gen, SecondEvery: 3}
 
 // ---- the selector itself, for every error-wrapping depth ------------------------------------------
 
